@@ -49,6 +49,10 @@ static int pswitch = 30, psig = 0, f_spur = 0, f_eintr = 0, f_enosys = 0, maxsig
 static int strategy;			/* 0 rand, 1 pct, 2 sweep (non-preemptive + one forced preemption) */
 static unsigned long preempt_at;
 static int preempt_tid = 1, preempt_len = 3, forced_left, forced_tid = -1;
+/* sweep only, off unless --hold-at is given: thread hold_tid is descheduled from step hold_at for hold_len steps
+ * (it still runs whenever nothing else can: a preempted thread resumes when the others wait for it) */
+static unsigned long hold_at, hold_len = 500;
+static int hold_tid = 1;
 static int pct_d = 3;
 static unsigned long pct_points[16];
 static unsigned long pct_len = 2000;
@@ -315,7 +319,7 @@ static int pick_next(int self_ok)
 		else cand[nc++] = i;
 	}
 	if (strategy == 2) {
-		int best = -1;
+		int best = -1, held = (hold_at && steps >= hold_at && steps < hold_at + hold_len) ? hold_tid : -1;
 		if (preempt_at && steps == preempt_at && preempt_tid < nthreads && T[preempt_tid].used && !T[preempt_tid].done &&
 		    (preempt_tid != self || self_ok)) {
 			/* the one forced preemption: wake the thread if it is in a logical sleep */
@@ -331,16 +335,18 @@ static int pick_next(int self_ok)
 			return forced_tid;
 		}
 		forced_left = 0;
-		if (self_ok && runnable(self) && T[self].st == ST_RUN)
+		if (self_ok && self != held && runnable(self) && T[self].st == ST_RUN)
 			return self;
 		for (i = 0; i < nc; i++)
-			if (best < 0 || cand[i] < best) best = cand[i];
+			if (cand[i] != held && (best < 0 || cand[i] < best)) best = cand[i];
 		if (best >= 0)
 			return best;
 		for (i = 0; i < np; i++)
-			if (best < 0 || poll[i] < best) best = poll[i];
+			if (poll[i] != held && (best < 0 || poll[i] < best)) best = poll[i];
 		if (best >= 0)
 			return best;
+		if (held >= 0 && held < nthreads && (held != self || self_ok) && runnable(held))
+			return held;
 	}
 	if (nc == 0 && np == 0) {
 		/* only logical sleepers left: time jumps to the earliest wake-up */
@@ -859,6 +865,9 @@ int vrt_init(int argc, char **argv)
 		else if (!strcmp(argv[i], "--preempt-at") && i + 1 < argc) preempt_at = strtoul(argv[++i], 0, 0);
 		else if (!strcmp(argv[i], "--preempt-tid") && i + 1 < argc) preempt_tid = atoi(argv[++i]);
 		else if (!strcmp(argv[i], "--preempt-len") && i + 1 < argc) preempt_len = atoi(argv[++i]);
+		else if (!strcmp(argv[i], "--hold-at") && i + 1 < argc) hold_at = strtoul(argv[++i], 0, 0);
+		else if (!strcmp(argv[i], "--hold-tid") && i + 1 < argc) hold_tid = atoi(argv[++i]);
+		else if (!strcmp(argv[i], "--hold-len") && i + 1 < argc) hold_len = strtoul(argv[++i], 0, 0);
 		else if (!strcmp(argv[i], "--pswitch") && i + 1 < argc) pswitch = atoi(argv[++i]);
 		else if (!strcmp(argv[i], "--psig") && i + 1 < argc) psig = atoi(argv[++i]);
 		else if (!strcmp(argv[i], "--sigdepth") && i + 1 < argc) maxsigdepth = atoi(argv[++i]);
